@@ -1,5 +1,5 @@
 (* Main.v — dispatcher for the extracted model. *)
-From Model Require Export Run.
+From Model Require Export Run RunContainer.
 Open Scope Z_scope.
 
 Definition run (op : Z) (arg : V) : V :=
@@ -13,4 +13,10 @@ Definition run (op : Z) (arg : V) : V :=
   if op =? 13 then run_size arg else
   if op =? 14 then run_encj arg else
   if op =? 20 then run_chunks arg else
+  if op =? 30 then run_container arg else
+  if op =? 31 then run_new arg else
+  if op =? 32 then run_file_bytes arg else
+  if op =? 33 then run_accessors arg else
+  if op =? 34 then run_he_encj arg else
+  if op =? 35 then run_he_dec arg else
   fail EOther.
